@@ -350,7 +350,10 @@ func runHTTP(t *testing.T, ci interface{}, trace bool) *common.Outcome {
 func runHTTPAs(t *testing.T, ci interface{}, trace bool, prop string) *common.Outcome {
 	c := ci.(*HTTPCase)
 	if c.Side == "client" {
-		return runHTTPClient(t, c, trace)
+		untrack := tracking(c.Track)
+		o := runHTTPClient(t, c, trace)
+		untrack(o, prop)
+		return o
 	}
 	untrack := tracking(c.Track)
 	o := runHTTPServer(t, c, trace)
